@@ -140,6 +140,10 @@ func Monitors(h History, tr *Trace) []Failure {
 		for id, v := range s.Vals {
 			if o, dup := seen[v.Cons]; dup {
 				add("C10", "C10/two-validators-share-consensus-key", height, "validators %d and %d", o, id)
+				if ov := s.Vals[o]; v.Status == 3 && !v.Jailed && ov.Status == 3 && !ov.Jailed {
+					// two bonded validators behind one key: whatever CometBFT holds for that key, it is not the chain's bonded set
+					add("C02", "C02/two-bonded-validators-share-consensus-key", height, "validators %d and %d", o, id)
+				}
 			}
 			seen[v.Cons] = id
 		}
@@ -390,6 +394,20 @@ func Monitors(h History, tr *Trace) []Failure {
 				add("C13", "C13/power-decreased-without-cause:"+valClass(prev, vid), ht, "validator %d %d->%d", vid, pp, np)
 			}
 		}
+		// C13(a'): only a successful unjail clears the jailed flag
+		for id := range jailChanged {
+			if pv := prev.Vals[id]; pv != nil && pv.Jailed && !s.Vals[id].Jailed {
+				unjailed := false
+				for _, op := range ops {
+					if op.Kind == "unjail" && op.Val == id {
+						unjailed = true
+					}
+				}
+				if !unjailed {
+					add("C13", "C13/jailed-flag-cleared-without-unjail", ht, "validator %d (power now %d)", id, s.CometNext[s.Vals[id].Cons])
+				}
+			}
+		}
 		// C13(b): unjailed validators return with tokens/10^6
 		for id := range jailChanged {
 			v := s.Vals[id]
@@ -537,6 +555,28 @@ func Monitors(h History, tr *Trace) []Failure {
 						if v.Cons == m.Cons {
 							add("C15", "C15/accepted-application-with-used-consensus-key", ht, "key %d of validator %d", m.Cons, id)
 						}
+					}
+					// ... nor to an application that was pending when the block began and still is when it ends
+					for _, pp := range prev.Pending {
+						stillPending := false
+						for _, op := range ops {
+							if (op.Kind == "removepending" || op.Kind == "setpower") && op.Val == pp.Oper {
+								stillPending = false // left the list (and may have come back) during the block: no claim
+								goto nextPending
+							}
+						}
+						for _, sp := range s.Pending {
+							if sp.Oper == pp.Oper && sp.Cons == pp.Cons {
+								stillPending = true
+							}
+						}
+						if stillPending && pp.Cons == m.Cons && pp.Cons >= 0 && pp.Oper != m.Val {
+							add("C15", "C15/accepted-application-with-pending-consensus-key", ht, "key %d of pending operator %d", m.Cons, pp.Oper)
+						}
+						if stillPending && pp.Oper == m.Val {
+							add("C15", "C15/accepted-application-of-pending-operator", ht, "operator %d", m.Val)
+						}
+					nextPending:
 					}
 					if m.Rate != nil && m.MaxRate != nil && m.MaxChg != nil &&
 						(m.Rate.Sign() < 0 || m.Rate.Cmp(m.MaxRate) > 0 || m.MaxRate.Cmp(ten18) > 0 || m.MaxChg.Sign() < 0 || m.MaxChg.Cmp(m.MaxRate) > 0) {
